@@ -202,9 +202,11 @@ impl Engine for C14 {
         let n = instances();
         format!(
             "{} token instances (identifiers <=3 over {{a,Z,_,7}} incl. digit-leading, and 12 identifiers that begin like 0b / 0x literals; signed decimals <=3 digits over {{0,1,9}} + 64-bit boundary values; hex <=2, binary <=3 digits; string bodies <=3 items over {{a,space,\\\\,\\\",\\',\\t,\\n}}; code bodies <=3 over {{a,}},],[,{{,LF}}; $names; 25 keywords; 53 operators; 18 punctuation marks); \
+             every block comment `/*` + body of <= {} pieces over {{/*, */, /, *, a, space}} that the reference finds well nested and terminated, followed by an integer; \
              every single instance, every ordered pair{} joined by each of {} separators, with and without a trailing separator; expected stream known by construction and cross-checked against the reference lexer. \
              non-trivial = not two punctuation marks; descriptors distinct by construction.",
             n.len(),
+            tier.pick(6, 7),
             tier.pick(
                 " (and every triple over the reduced instance set with separators ' ' and '/*a/*b*/c*/')",
                 " and every triple over the reduced instance set extended by every 7th instance"
@@ -307,6 +309,33 @@ impl Engine for C14 {
                 }
             }
             ctx.add("pairs", 1);
+        }
+        // block comments: every body of <= 6 (t: 7) pieces over {"/*", "*/", "/", "*", "a", " "} behind an
+        // opener, followed by a blank and an integer; judged where the reference finds only valid tokens
+        // (properly nested, terminated) - the delimiters may touch ("/*/", "*/*") but never overlap
+        {
+            let pieces = ["/*", "*/", "/", "*", "a", " "];
+            let bodies = words_over(&pieces, tier.pick(6, 7));
+            for (k, w) in bodies.iter().enumerate() {
+                if !ctx.is_mine(k as u64) {
+                    continue;
+                }
+                let text = format!("/*{w} 42");
+                let reference = reflex::lex(&text);
+                let nontrivial = valid(&reference) && reference.len() >= 3;
+                ctx.trace(|| json!({ "text": &text }));
+                ctx.case(nontrivial);
+                ctx.add("comment_bodies", 1);
+                if !valid(&reference) {
+                    continue;
+                }
+                if let Some((clause, detail)) = check(&text, &reference) {
+                    ctx.fail(failure(&text, &clause, detail));
+                }
+                if ctx.expired() {
+                    return;
+                }
+            }
         }
         // triples over the reduced set
         let red: Vec<usize> = inst
